@@ -333,6 +333,12 @@ func (d *decoder) posErrorf(yn *yaml.Node, format string, args ...any) error {
 
 // yamlOffset converts a YAML node's line and column to a byte offset.
 func (d *decoder) yamlOffset(yn *yaml.Node) int {
+	if yn.Line < 1 || yn.Line > len(d.tokLines) {
+		// The YAML parser also counts line breaks that the line table does
+		// not know, such as a carriage return or U+0085 inside a quoted
+		// scalar, so its line numbers can run past the table.
+		return len(d.src)
+	}
 	return d.tokLines[yn.Line-1] + (yn.Column - 1)
 }
 
@@ -497,6 +503,9 @@ func (d *decoder) isCommentLine(lineIdx int) bool {
 // the scope. This ensures that comments belonging to the next sibling
 // are not consumed by the current node's scope.
 func (d *decoder) scopeEndBefore(yn *yaml.Node) int {
+	if yn.Line < 1 || yn.Line > len(d.tokLines) {
+		return len(d.src) // see yamlOffset
+	}
 	end := d.tokLines[yn.Line-1]
 	if yn.HeadComment == "" {
 		return end
